@@ -22,6 +22,8 @@ pub struct Report {
     pub rule: String,
     pub exhaustive: bool,
     pub machinery_errors: Vec<String>,
+    /// extra keys copied into `coverage`
+    pub extra: BTreeMap<String, Value>,
 }
 
 impl Report {
@@ -81,6 +83,9 @@ impl Report {
         });
         let evals = self.transitions + self.evaluations;
         let c = cov.as_object_mut().unwrap();
+        for (k, v) in &self.extra {
+            c.insert(k.clone(), v.clone());
+        }
         if self.level == "model_checking" {
             c.insert("states".into(), json!(self.states));
             c.insert("transitions".into(), json!(evals));
